@@ -45,7 +45,9 @@ def gen_def(r, allow_kwonly=True, allow_kwargs=True, method=None):
                 e["typ"] = r.choice(DOC_TYPES)
     if method is None:
         method = r.random() < 0.4
+    receiver = r.choice(["self", "self", "cls"]) if method else None
     return {
+        "receiver": receiver,
         "name": "call_peril", "method": method, "params": params, "kwargs": kwargs, "doc": doc, "coverage": coverage,
         "style": style, "summary": "Summary of the thing.",
         "trailer": r.random() < 0.3, "brace_opts": r.random() < 0.2,
@@ -88,7 +90,7 @@ def docstring(f, indent):
 def signature_src(f):
     parts = []
     if f["method"]:
-        parts.append("self")
+        parts.append(f.get("receiver") or "self")
     star_done = False
     for p in f["params"]:
         if p["kind"] == "kwonly" and not star_done:
@@ -113,12 +115,12 @@ def function_src(f, indent=0):
 def module_src(f):
     """the definition as a module: a top-level function, or a class C holding the method"""
     if f["method"]:
-        return "class C(object):\n" + function_src(f, 4)
+        return "class C(object):\n" + ("    @classmethod\n" if f.get("receiver") == "cls" else "") + function_src(f, 4)
     return function_src(f)
 
 
 def class_init_src(f):
     """class documented in its own docstring, parameters in __init__ (parse.class_(..., merge_inner_function='__init__'))"""
-    g = dict(f, method=True, name="__init__")
+    g = dict(f, method=True, name="__init__", receiver="self")
     init = "    def __init__(%s):\n        pass\n" % signature_src(g)
     return "class ConfigClass(object):\n" + docstring(f, 4) + "\n" + init
